@@ -73,6 +73,13 @@ CHECKS = {
         "decompose_rws (factors multiplied back exactly by TLC, proper rotation, unit shear, diagonal scale), resolution_from_affine, affine_from_pts, affine_from_axis, Bin1D and Poly2d "
         "fit / evaluation / input-transform composition against exact polynomial evaluation in TLA+.",
    ref="5/C20", note=TB + "floats off the lattices (1-ulp effects, values exactly at a tolerance) are outside the family; least-squares results are accepted within 1e-5 of the exact lattice value"),
+ "C08": dict(
+   technique="TLA+ exact-rational model of from_bbox on top of the snap_grid transcription (FromBBox) checked by TLC against the cover/minimal/aligned contract; real GeoBox.from_bbox / from_geopolygon / zoom_to results validated by TLC",
+   text="TLC checks that the model of the resolution- and shape-driven branches (anchor normalisation, tight, per-axis snapping with negative resolutions) satisfies: exact pixel size and "
+        "orientation, cover up to tol, less than 1+tol pixel excess per side, pixel edges offset from the origin by exactly the anchor fraction unless floating/tight; exact shape, pixel size = "
+        "span/shape and sub-pixel displacement (none when snapping is off) - on ~1.4e5 (quick) cases, and emits them. The real constructors are run through five routes (BoundingBox, tuple+crs, polygon, "
+        "polygon in an exact-translation CRS, zoom_to(resolution=)) including whole-pixel shifts of 2^20 pixels, and TLC judges the logged (shape, affine) with the same contract and compares with the model.",
+   ref="5/C08", note=TB + "spans of millions of pixels are represented by the 2^20-pixel shift family only (TLC integers are 32 bit)"),
 }
 
 NOT_YET = "check not built yet (work in progress); see DESIGN.md"
